@@ -524,6 +524,26 @@ func init() {
 	} {
 		externals[n] = nop
 	}
+	// strings.Builder guards against copying with unsafe pointer tricks and
+	// returns its buffer through unsafe.String
+	externals["(*strings.Builder).copyCheck"] = nop
+	externals["(*strings.Builder).String"] = func(fr *frame, args []value) value {
+		b := (*args[0].(*value)).(structure)
+		for _, f := range b {
+			if buf, ok := f.([]value); ok {
+				return bytesToString(buf)
+			}
+		}
+		return ""
+	}
+	externals["internal/bytealg.MakeNoZero"] = func(fr *frame, args []value) value {
+		n := asInt64(args[0])
+		out := make([]value, n)
+		for i := range out {
+			out[i] = byte(0)
+		}
+		return out
+	}
 	externals["(*sync.Mutex).TryLock"] = func(fr *frame, args []value) value { return true }
 	externals["(*sync.Once).Do"] = func(fr *frame, args []value) value {
 		o := args[0].(*value)
